@@ -34,19 +34,40 @@ __thread G::write_handle* tl_handle;
 
 struct Elem {
     long v;
-    Elem(long x): v(x) {}
+    Elem(long x): v(x) { reg(); }
+    Elem(const Elem& o): v(o.v) { reg(); }
     Elem(const Reenter& r);
+    ~Elem();
+    void reg();
 };
 
 struct State {
     G* g;
+    std::set<const Elem*> live;  // oracle: constructed and not yet destroyed (C13)
+    long constructed = 0, destroyed = 0;
     std::set<long> inserted;  // oracle
     std::vector<std::pair<long, long>> before;  // (x, y): x must sit immediately before y
 };
 State* S;
 
+void Elem::reg()
+{
+    gsim::Oracle o;
+    if (!S) return;
+    S->live.insert(this);
+    S->constructed++;
+}
+Elem::~Elem()
+{
+    gsim::Oracle o;
+    if (!S) return;
+    if (!S->live.erase(this))
+        gsim::fail("double_destroy", "element at %p destroyed twice (or never constructed)", (void*)this);
+    S->destroyed++;
+}
 Elem::Elem(const Reenter& r): v(r.v)
 {
+    reg();
     if (r.nested && tl_handle) {
         long child = r.v + 50;
         {
@@ -143,6 +164,15 @@ void run()
                            "%zu and %zu", p.first, p.second, pos[p.first], pos[p.second]);
     }
     delete st.g;
+    {
+        // C13: the list destroys everything it allocated, also elements that were pushed
+        // from inside another element's constructor
+        gsim::Oracle o;
+        if (!st.live.empty())
+            gsim::fail("leak", "%zu elements were never destroyed although all handles are released "
+                       "and the list is gone (constructed %ld, destroyed %ld)", st.live.size(),
+                       st.constructed, st.destroyed);
+    }
     S = nullptr;
 }
 }  // namespace
